@@ -504,3 +504,21 @@ Proof.
     + left. reflexivity.
     + left. reflexivity.
 Qed.
+
+(* the concatenation law (C19) for printed texts: parsing the printed form of
+   one sequence followed by the printed form of another returns the messages of
+   the first followed by the messages of the second, each as parsed alone *)
+Theorem concat_printed alnum floats fl ms1 ms2 : Forall (msg_good alnum) ms1 -> Forall (msg_good alnum) ms2 ->
+  r_msgs (sml_parse alnum floats (msgs_text fl ms1 ++ msgs_text fl ms2)) =
+    r_msgs (sml_parse alnum floats (msgs_text fl ms1)) ++ r_msgs (sml_parse alnum floats (msgs_text fl ms2)) /\
+  r_errs (sml_parse alnum floats (msgs_text fl ms1 ++ msgs_text fl ms2)) = [] /\
+  r_warns (sml_parse alnum floats (msgs_text fl ms1 ++ msgs_text fl ms2)) = [].
+Proof.
+  intros H1 H2.
+  assert (E : msgs_text fl ms1 ++ msgs_text fl ms2 = msgs_text fl (ms1 ++ ms2)) by (unfold msgs_text; rewrite flat_map_app; reflexivity).
+  rewrite E.
+  destruct (print_parse_messages alnum floats fl (ms1 ++ ms2) ltac:(apply Forall_app; split; assumption)) as (A & B' & C & _).
+  destruct (print_parse_messages alnum floats fl ms1 H1) as (A1 & _).
+  destruct (print_parse_messages alnum floats fl ms2 H2) as (A2 & _).
+  cbv zeta in *. rewrite A, A1, A2, B', C. repeat split; reflexivity.
+Qed.
